@@ -141,10 +141,13 @@ pub enum Mode {
     TotalCostsCsvDir,
     Summary,
     SummaryAnnual,
+    /// --summarize-before together with --csv-output-dir and --print-full-values
+    SummaryCsvDir,
+    /// --total-costs with --print-full-values on the console
+    TotalCostsFull,
 }
 
-pub const ALL_MODES: [Mode; 7] =
-    [Mode::Text, Mode::TextFull, Mode::TotalCosts, Mode::CsvDir, Mode::TotalCostsCsvDir, Mode::Summary, Mode::SummaryAnnual];
+pub const ALL_MODES: [Mode; 9] = [Mode::Text, Mode::TextFull, Mode::TotalCosts, Mode::CsvDir, Mode::TotalCostsCsvDir, Mode::Summary, Mode::SummaryAnnual, Mode::SummaryCsvDir, Mode::TotalCostsFull];
 
 #[derive(Clone, Debug, Serialize, Deserialize, PartialEq)]
 pub struct Sc {
@@ -219,8 +222,66 @@ fn cents_str(c: i64) -> String {
     format!("{}.{:02}", c / 100, c % 100)
 }
 
+/// One input in 120 is LARGE: a security with several hundred rows next to a dozen one-row
+/// securities (anything that only happens above a size threshold - batching, a worker pool - is
+/// out of reach of the ordinary inputs).
+fn generate_large(r: &mut Rng, k_seeds: usize) -> Sc {
+    let mut rows: Vec<Vec<String>> = vec![];
+    let mk = |sec: &str, day: Date, action: &str, qty: i64, price: i64| -> Vec<String> {
+        let mut row = vec![String::new(); HEADER.len()];
+        row[C_SEC] = sec.to_string();
+        row[C_TRADE] = day.to_string();
+        row[C_SETTLE] = (day + Duration::days(2)).to_string();
+        row[C_ACTION] = action.to_string();
+        row[C_SHARES] = shares_str(qty);
+        row[C_AMT] = cents_str(price);
+        row
+    };
+    let n = r.range(420, 700);
+    let mut day = d(2018, 1, 2);
+    let mut held = 0i64;
+    for i in 0..n {
+        day += Duration::days(r.range(0, 2));
+        if held > 20_000 && r.chance(1, 2) {
+            let q = r.range(1, 10) * 1000;
+            rows.push(mk("AAA", day, "Sell", q, r.range(900, 1500)));
+            held -= q;
+        } else {
+            let q = r.range(1, 20) * 1000;
+            rows.push(mk("AAA", day, "Buy", q, r.range(900, 1500)));
+            held += q;
+        }
+        if i % 50 == 0 {
+            rows.last_mut().unwrap()[C_MEMO] = format!("batch {}", i / 50);
+        }
+    }
+    for (i, sec) in ["B1", "C2", "D3", "E4", "F5", "G6", "H7", "I8", "J9", "K10", "L11", "M12"].iter().enumerate() {
+        rows.push(mk(sec, d(2018, 3, 1) + Duration::days(i as i64), "Buy", 5000, 1000 + i as i64));
+    }
+    let mut hash_seeds = vec![];
+    for _ in 0..k_seeds {
+        hash_seeds.push(r.next_u64());
+    }
+    Sc {
+        files: vec![CsvFile { name: "big.csv".to_string(), extra_cols: vec![], rows, layout_seed: 0, crlf: false, bom: false }],
+        modes: vec![Mode::Text, Mode::TotalCostsCsvDir, Mode::Summary],
+        symbol_base: vec![],
+        summarize_before: d(2019, 6, 1).to_string(),
+        today: d(2023, 6, 15).to_string(),
+        hash_seeds,
+        max_read: usize::MAX,
+        fx: None,
+        e2e: r.chance(1, 4),
+        e2e_affiliate_spellings: false,
+        e2e_verbose: false,
+    }
+}
+
 pub fn generate(seed: u64, k_seeds: usize) -> Sc {
     let mut r = Rng::new(seed);
+    if r.chance(1, 120) {
+        return generate_large(&mut r, k_seeds);
+    }
     // mostly 1-4 securities; sometimes many (6-10), most of them tiny and error-prone
     let many = r.chance(1, 14);
     let n_sec = if many { r.range(6, 10) as usize } else { r.weighted(&[2, 4, 3, 2]) + 1 };
@@ -570,7 +631,14 @@ pub fn generate(seed: u64, k_seeds: usize) -> Sc {
         match r.below(3) {
             0 => symbol_base.push(format!("{}:{}:{}", sym, r.range(1, 40), cents_str(r.range(500, 90000)))),
             1 => symbol_base[0] = format!(" {}", first),
-            _ => symbol_base.push("NOPE:3:30.00".to_string()),
+            _ => {
+                // opening positions for symbols that never trade (two or three of them)
+                symbol_base.push("NOPE:3:30.00".to_string());
+                symbol_base.push("IDLE:7:140.00".to_string());
+                if r.chance(1, 2) {
+                    symbol_base.push("ZZZ.TO:1:1.00".to_string());
+                }
+            }
         }
     }
     // One input in forty carries a malformed cell or two (the run stops with a diagnostic).
@@ -608,6 +676,14 @@ pub fn generate(seed: u64, k_seeds: usize) -> Sc {
             if !row[C_FX].is_empty() && r.chance(1, 4) {
                 row[C_FX] = "1.3141592653".to_string();
             }
+        }
+    }
+    if r.chance(1, 12) {
+        // opening positions for symbols that never trade
+        symbol_base.push("IDLE:7:140.00".to_string());
+        symbol_base.push("NOPE2:3:30.00".to_string());
+        if r.chance(1, 2) {
+            symbol_base.push("ZZZ.TO:1:1.00".to_string());
         }
     }
     // A fifth of the inputs write some share counts with trailing zeros ("10.0", "2.50"): the same
@@ -843,6 +919,15 @@ pub fn run_once_in(sc: &Sc, mode: Mode, hash_seed: u64, keep_cache: bool, boc: O
                 options.summary_mode_latest_date = Some(parse_date(&summarize_before));
                 options.split_annual_summary_gains = true;
             }
+            Mode::SummaryCsvDir => {
+                options.summary_mode_latest_date = Some(parse_date(&summarize_before));
+                options.render_full_dollar_values = true;
+                options.csv_output_dir = Some("/simfs/out".to_string());
+            }
+            Mode::TotalCostsFull => {
+                options.render_total_costs = true;
+                options.render_full_dollar_values = true;
+            }
         }
         let err = acb::util::rw::WriteHandle::stderr_write_handle();
         let log = std::rc::Rc::new(std::cell::RefCell::new(Vec::new()));
@@ -922,6 +1007,8 @@ fn mode_args(mode: Mode, summarize_before: &str, out_dir: &str) -> Vec<String> {
         Mode::TotalCostsCsvDir => vec![s("--total-costs"), s("--print-full-values"), s("-d"), s(out_dir)],
         Mode::Summary => vec![s("--summarize-before"), s(summarize_before)],
         Mode::SummaryAnnual => vec![s("--summarize-before"), s(summarize_before), s("--summarize-annual-gains")],
+        Mode::SummaryCsvDir => vec![s("--summarize-before"), s(summarize_before), s("--print-full-values"), s("--csv-output-dir"), s(out_dir)],
+        Mode::TotalCostsFull => vec![s("--total-costs"), s("--print-full-values")],
     }
 }
 
@@ -1039,7 +1126,7 @@ pub fn compare(a: &RunOutput, b: &RunOutput, mode: Mode, sa: u64, sb: u64) -> Op
         let (sa_s, sb_s) = (String::from_utf8_lossy(&a.stdout), String::from_utf8_lossy(&b.stdout));
         let (line, x, y, section) = first_diff_line(&sa_s, &sb_s);
         // Summary mode prints a CSV on stdout.
-        let section = if matches!(mode, Mode::Summary | Mode::SummaryAnnual) { "summary CSV".to_string() } else { section };
+        let section = if matches!(mode, Mode::Summary | Mode::SummaryAnnual | Mode::SummaryCsvDir) { "summary CSV".to_string() } else { section };
         let sig = classify("stdout", &section, x, y);
         return Some(Violation {
             kind: "stdout_differs".to_string(),
@@ -1263,7 +1350,7 @@ impl Engine for C09 {
     }
     fn budget(&self, tier: Tier) -> (u64, u64) {
         match tier {
-            Tier::Quick => (6_000, 60),
+            Tier::Quick => (5_000, 60),
             Tier::Thorough => (60_000, 1200),
         }
     }
@@ -1286,6 +1373,9 @@ impl Engine for C09 {
                 st.bump("probe.input_with_ge2_securities");
             }
         }
+        if sc.files.iter().map(|f| f.rows.len()).sum::<usize>() >= 400 {
+            st.bump("probe.large_input_ge_400_rows");
+        }
         if sc.files.iter().any(|f| f.layout_seed != 0) {
             st.bump("probe.columns_permuted_and_header_names_respelled");
         }
@@ -1303,7 +1393,7 @@ impl Engine for C09 {
             let mut first: Option<(u64, RunOutput)> = None;
             for (hi, hs) in sc.hash_seeds.iter().enumerate() {
                 // every other later process finds the output directory used by an earlier, longer run
-                let used = if hi % 2 == 1 && matches!(mode, Mode::CsvDir | Mode::TotalCostsCsvDir) { first.as_ref().map(|f| &f.1.files).filter(|f| !f.is_empty()) } else { None };
+                let used = if hi % 2 == 1 && matches!(mode, Mode::CsvDir | Mode::TotalCostsCsvDir | Mode::SummaryCsvDir) { first.as_ref().map(|f| &f.1.files).filter(|f| !f.is_empty()) } else { None };
                 if used.is_some() {
                     st.bump("probe.output_dir_used_by_an_earlier_longer_run");
                     st.bump("fault.output_dir_holds_longer_files_of_an_earlier_run");
@@ -1365,7 +1455,7 @@ impl Engine for C09 {
                     'modes: for mode in &sc.modes {
                         let mut first: Option<(u64, RunOutput)> = None;
                         for (hi, hs) in sc.hash_seeds.iter().take(3).enumerate() {
-                            let used = if hi % 2 == 1 && matches!(mode, Mode::CsvDir | Mode::TotalCostsCsvDir) { first.as_ref().map(|f| &f.1.files).filter(|f| !f.is_empty()) } else { None };
+                            let used = if hi % 2 == 1 && matches!(mode, Mode::CsvDir | Mode::TotalCostsCsvDir | Mode::SummaryCsvDir) { first.as_ref().map(|f| &f.1.files).filter(|f| !f.is_empty()) } else { None };
                             let out = match run_e2e(sc, *mode, *hs, used) {
                                 Ok(o) => o,
                                 Err(e) => {
@@ -1601,6 +1691,7 @@ impl Engine for C09 {
             // >=2 affiliates/securities - are reported but not required: a change of wording or layout
             // must not turn the check into a harness error)
             "probe.input_with_ge2_securities",
+            "probe.large_input_ge_400_rows",
             "probe.global_split_over_ge2_affiliates",
             "probe.hash_seed_changed_probe_set_order",
             "probe.securities_differing_only_in_case",
